@@ -152,23 +152,17 @@ Definition resolve {A} (arg sys : option A) : option A :=
   match arg with Some v => Some v | None => sys end.
 
 (* base: everything that is neither modulation nor weights (voxel_shape, voxel_size, tol, phase, timed).
-   [pops = true] is the behaviour of probe.py 203/206 as found on the pinned tree: the probe REMOVES
-   modulation / weights from its own options when it acquires. *)
+   The probe reads its options (probe.py works on a copy of self.opts since the fix of the option-popping
+   defect found by this check), so an acquisition leaves the probe's options as they were. *)
 Definition resolve_cfg (base : icfg) (o : popts) (sys : psystem) : icfg :=
   mkCfg (shape base) (vsize base) (tol base) (timed base)
         (resolve (o_modul o) (s_modul sys)) (phase base) (resolve (o_weight o) (s_weight sys)).
 
-Definition next_opts (pops : bool) (o : popts) : popts := if pops then mkOpts None None else o.
-
-(* options of the probe instance before its n-th acquisition (n = 0: as constructed) *)
-Fixpoint opts_at (pops : bool) (n : nat) (o : popts) : popts :=
-  match n with O => o | S m => opts_at pops m (next_opts pops o) end.
-
-Definition acquire (pops : bool) (base : icfg) (o : popts) (sys : psystem) (x : list R) (l : list pstate)
+Definition acquire (base : icfg) (o : popts) (sys : psystem) (x : list R) (l : list pstate)
   : C * popts :=
-  (img (resolve_cfg base o sys) x l, next_opts pops o).
+  (img (resolve_cfg base o sys) x l, o).
 
-Definition acquire2 (pops : bool) (base : icfg) (o : popts) (sys : psystem) (x : list R) (l : list pstate)
+Definition acquire2 (base : icfg) (o : popts) (sys : psystem) (x : list R) (l : list pstate)
   : C * C :=
-  let '(v1, o1) := acquire pops base o sys x l in
-  let '(v2, _) := acquire pops base o1 sys x l in (v1, v2).
+  let '(v1, o1) := acquire base o sys x l in
+  let '(v2, _) := acquire base o1 sys x l in (v1, v2).
